@@ -338,6 +338,9 @@ pub fn gen_bundle_ph(r: &mut Rng, p: &Pools, fixed_ph: Option<[u8; 32]>) -> Vec<
         for j in 0..n { if sp[j].parent == snapshot[i].coin_id() && r.chance(4, 5) {
             let c = pair(at(&[51]), list(vec![at(&sp[j].ph), int(sp[j].amount)], nil())); sp[i].conds.push(c);
             if r.chance(1, 2) { sp[j].conds.push(pair(at(&[76]), nil())); }
+            // often the parent also re-creates itself (same puzzle hash and amount): with an odd amount it is then
+            // fast-forward eligible unless one of its OTHER outputs is spent in the bundle, as here
+            if r.chance(1, 2) { let me = pair(at(&[51]), list(vec![at(&snapshot[i].ph), int(snapshot[i].amount)], nil())); sp[i].conds.push(me); }
         }}
         if n > 0 && r.chance(1, 3) {
             let j = r.below(n as u64) as usize; let msg = r.pick(&p.msgs).clone(); if msg.len() <= 1024 {
@@ -456,10 +459,13 @@ fn ephemeral_sweep(o: &mut Out, p: &Pools) {
             child.conds = match shape { 0 => vec![c], 1 => vec![c, real], _ => vec![real, c] };
             let mut par = parent0.clone();
             par.conds.push(pair(at(&[51]), list(vec![at(&child.ph), int(if kind == 1 { 5 } else { child.amount })], nil())));
-            let t = pair(list(vec![
-                list(vec![at(&par.parent), at(&par.ph), int(par.amount), list(par.conds.clone(), nil())], nil()),
-                list(vec![at(&child.parent), at(&child.ph), int(child.amount), list(child.conds.clone(), nil())], nil())], nil()), nil());
-            case(o, flags & F_STRICT != 0, flags, 11_000_000_000, 0, &t);
+            // both listings: parent first, and child first (spends of a bundle are unordered)
+            for child_first in [false, true] {
+                let pt = list(vec![at(&par.parent), at(&par.ph), int(par.amount), list(par.conds.clone(), nil())], nil());
+                let ct = list(vec![at(&child.parent), at(&child.ph), int(child.amount), list(child.conds.clone(), nil())], nil());
+                let t = pair(list(if child_first { vec![ct, pt] } else { vec![pt, ct] }, nil()), nil());
+                case(o, flags & F_STRICT != 0, flags, 11_000_000_000, 0, &t);
+            }
         }}}}
     }
 }
